@@ -434,6 +434,7 @@ func typeConverter(t dsl.Type, contextNamespace string, namedType *dsl.NamedType
 			for i, c := range t.Cases {
 				if c.Type == nil {
 					options[i] = "None"
+					possibleTypes |= ndjsoncommon.JsonNull
 				} else {
 					jsonTypes := ndjsoncommon.GetJsonDataType(c.Type)
 					jsonTypeStrings := make([]string, 0, 1)
